@@ -111,6 +111,7 @@ type limits struct {
 	CancelAt int64 `json:"cancel_at,omitempty"`
 	Height   int   `json:"height,omitempty"`
 	Nesting  int   `json:"nesting,omitempty"`
+	Logical  int   `json:"logical,omitempty"` // opt-in logical stack limit set TOGETHER with the physical one
 	TailIter int   `json:"tail_iter,omitempty"`
 	MacroExp int   `json:"macro_exp,omitempty"`
 	Monitor  bool  `json:"monitor,omitempty"` // run under the counting context even without cancellation
@@ -138,6 +139,10 @@ func (g *rig) run(src string, l limits) result {
 	rt.Stack.MaxHeightPhysical = dh
 	if l.Height > 0 {
 		rt.Stack.MaxHeightPhysical = l.Height
+	}
+	rt.Stack.MaxHeightLogical = lisp.StandardRuntime().Stack.MaxHeightLogical
+	if l.Logical > 0 {
+		rt.Stack.MaxHeightLogical = l.Logical
 	}
 	rt.Stack.MaxTailIterations = dt
 	if l.TailIter > 0 {
@@ -367,6 +372,27 @@ func (c *checker) program(src string, f feat, exhaustiveBudgets bool) {
 		}
 		if !same && sawEqual >= 0 && !f.swallow { // with a swallowing form an equal outcome can be a coincidence
 			c.violate("height-limit-not-monotone", k, fmt.Sprintf("limit %d already gave the unlimited outcome", sawEqual), res.out.Full())
+		}
+	}
+	// the physical bound holds whatever OTHER stack limit is configured next to it: the opt-in logical limit just
+	// below, at and just above the physical one (only the invariants apply: which of the two errors ends the run is
+	// not specified)
+	for h := 1; h <= H+1; h++ {
+		for _, lg := range []int{h - 1, h, h + 1} {
+			if lg < 1 {
+				continue
+			}
+			k := kase{Src: src, Lim: limits{Height: h, Logical: lg, Monitor: true}, Why: "height+logical"}
+			res := c.g.run(src, k.Lim)
+			r.AddEvals(1)
+			r.AddTransitions(1)
+			if res.broken != "" {
+				c.violate("bound-exceeded:height+logical", k, "the physical bound holds at every step and probe whatever the logical limit is", res.broken)
+			} else if res.clean != "" {
+				c.violate("dirty-after-height+logical", k, "clean runtime after return", res.clean)
+			} else if res.out.IsErr && res.out.Cond == lisp.CondInternalPanic {
+				c.violate("limit-panics:height+logical", k, "an ordinary catchable error", res.out.Full())
+			}
 		}
 	}
 	if sawEqual < 0 || sawEqual > H+1 {
